@@ -125,17 +125,25 @@ NoSharedCell(s) == \A i, j \in Agents : i # j =>
 PhysInv(s) == GridShape(s) /\ AgentsShape(s) /\ EntitiesInBounds(s) /\ HeadsOnce(s) /\ TargetsOnce(s)
               /\ PositionsAgree(s) /\ NoSharedCell(s)
 
-(* occupancy over one transition s -> t: nothing that was occupied is freed or changes owner, and
-   exactly the agents whose head entered a cell that was empty occupy one more cell each *)
+(* occupancy over one transition s -> t: nothing that was occupied is freed or changes owner, the cells
+   that become occupied are exactly the cells (empty before) that a head entered; path cells are permanent
+   and the new ones are exactly the cells the moving heads left *)
 Occupied(g) == { p \in AllCells0 : Val(g, p) # 0 }
-OwnerKept(s, t) == \A p \in Occupied(s.grid) : Val(t.grid, p) # 0 /\ OwnerOf(Val(t.grid, p)) = OwnerOf(Val(s.grid, p))
-EnteredEmpty(s, t) == { i \in Agents : PosOf(t, i) # PosOf(s, i) /\ InB(PosOf(t, i)) /\ Val(s.grid, PosOf(t, i)) = 0 }
+OwnerKept(s, t) == \A p \in AllCells0 :
+  Val(s.grid, p) # 0 => (Val(t.grid, p) # 0 /\ OwnerOf(Val(t.grid, p)) = OwnerOf(Val(s.grid, p)))
+Movers(s, t) == { i \in Agents : PosOf(t, i) # PosOf(s, i) }
+EnteredEmpty(s, t) == { i \in Movers(s, t) : InB(PosOf(t, i)) /\ Val(s.grid, PosOf(t, i)) = 0 }
 OccupancyLaw(s, t) ==
   /\ OwnerKept(s, t)
-  /\ Cardinality(Occupied(t.grid)) = Cardinality(Occupied(s.grid)) + Cardinality(EnteredEmpty(s, t))
-PathLaw(s, t) == \A i \in Agents :
-  Cardinality(CellsWith(t.grid, PathCode(i))) =
-     Cardinality(CellsWith(s.grid, PathCode(i))) + (IF PosOf(t, i) # PosOf(s, i) THEN 1 ELSE 0)
+  /\ { p \in AllCells0 : Val(s.grid, p) = 0 /\ Val(t.grid, p) # 0 } = { PosOf(t, i) : i \in EnteredEmpty(s, t) }
+IsPathCode(v) == v > 0 /\ v % 3 = 1
+PathLaw(s, t) ==
+  /\ \A p \in AllCells0 : IsPathCode(Val(s.grid, p)) => Val(t.grid, p) = Val(s.grid, p)
+  /\ { p \in AllCells0 : IsPathCode(Val(t.grid, p)) /\ Val(t.grid, p) # Val(s.grid, p) } = { PosOf(s, i) : i \in Movers(s, t) }
+  /\ \A i \in Movers(s, t) : Val(t.grid, PosOf(s, i)) = PathCode(i)
+(* nothing owned by agent k (path, head, target) appears, disappears or changes *)
+OwnedSame(s, t, k) == \A p \in AllCells0 :
+  (OwnerOf(Val(s.grid, p)) = k \/ OwnerOf(Val(t.grid, p)) = k) => Val(s.grid, p) = Val(t.grid, p)
 
 (* ---------- feasibility of the partial solution (C06), from the raw arrays ---------- *)
 One(p) == <<p[1] + 1, p[2] + 1>>                      \* 0-based -> 1-based cell (EnvKit's Reach is 1-based)
